@@ -6,16 +6,16 @@ func init() {
 
 // C02: compositions of instrumented control-flow constructs under all truth assignments.
 func checkC02(c *Check) {
-	c.rule = "MC_Flow composes the 31 instrumented constructs of EFSyntax (if / else if / else, while, for, foreach over array/string/hash/range/variable with and without index, switch by literal/multi-value/expression/regexp/default, ternary, early return) nested and in sequence (quick: all pairs + 1/11 of triples; thorough: all triples); MC_Opt supplies the same compositions with 12 constant conditions in place of the fields; each program is run under every truth assignment of its condition fields, in sequence on one evaluator; result, t(n) call sequence and variables are compared with EFSemantics; non-trivial = expectation is a value; distinct = distinct script text; in addition every 12th (thorough: 4th) evaluator is recorded instruction by instruction and the trace validated against Trace_VM (jump targets, frame discipline, operand-stack heights at every step)"
+	c.rule = "MC_Flow composes the 31 instrumented constructs of EFSyntax (if / else if / else, while, for, foreach over array/string/hash/range/variable with and without index, switch by literal/multi-value/expression/regexp/default, ternary, early return) nested and in sequence (quick: all pairs + 1/11 of triples; thorough: all triples); MC_Opt supplies the same compositions with 12 constant conditions in place of the fields; each program is run under every truth assignment of its condition fields, in sequence on one evaluator; result, t(n) call sequence and variables are compared with EFSemantics; non-trivial = expectation is a value; distinct = distinct script text; in addition every 12th (thorough: 16th of many more) evaluator, up to 0.8 (thorough: 3) million instructions, is recorded instruction by instruction and the trace validated against Trace_VM (jump targets, frame discipline, operand-stack heights at every step)"
 	c.assumptions = []string{
 		"host function t() returns the void value; conditions are boolean object fields",
 		"switch case matching between an integer and an equal float, ranges a..b with a>b are unconstrained and not generated",
 	}
-	every := 12
+	every, max := 12, 800000
 	if c.Tier == "thorough" {
-		every = 4
+		every, max = 16, 3000000
 	}
-	tc := &traceCollector{every: every}
+	tc := &traceCollector{every: every, max: max}
 	runRows(c, "MC_Flow", stdCfg(c.Tier, "Specified", "Bounded"), func(row *Row) {
 		replayProgRow(c, row, progOpts{collector: tc})
 	})
